@@ -5,12 +5,58 @@ from poly import mk
 KINDS = ["ode", "statio", "nonstatio"]
 
 
-def problem(kind, dim=2):
+def system_problem(kind, dim=2):
+    """a system loss with two unknowns and two equations whose residuals have opposite signs at many points
+    (so that adding residuals before squaring and adding their squares rank candidates differently)"""
+    jax, jnp, np, eqx, jinns = jx()
+    from jinns.parameters import ParamsDict
+    eq_type = {"ode": "ODE", "statio": "statio_PDE", "nonstatio": "nonstatio_PDE"}[kind]
+    if kind == "ode":
+        p1, p2 = {(0,): -1, (1,): 3, (2,): -4}, {(0,): 1, (1,): -2}
+    elif kind == "statio":
+        p1, p2 = ({(1, 0): 3, (0, 1): -2, (1, 1): 4}, {(1, 0): -3, (0, 2): 1}) if dim == 2 else ({(1,): 3, (2,): -4}, {(0,): 1, (1,): -3})
+    else:
+        p1, p2 = (({(1, 0, 0): 2, (0, 1, 0): 3, (0, 0, 1): -5, (1, 1, 0): 1}, {(1, 0, 0): -2, (0, 1, 1): 2, (0, 0, 1): 4}) if dim == 2
+                  else ({(1, 0): 2, (0, 1): -3, (1, 1): 4}, {(1, 0): -2, (0, 1): 2, (0, 2): 1}))
+    us = {"a": mk([p1], eq_type), "b": mk([p2], eq_type)}
+    PD = ParamsDict(nn_params={k: u.init_params() for k, u in us.items()}, eq_params={})
+    base = {"ode": jinns.loss.ODE, "statio": jinns.loss.PDEStatio, "nonstatio": jinns.loss.PDENonStatio}[kind]
+
+    def mkE(key, c):
+        if kind == "nonstatio":
+            class E(base):
+                def equation(self, t, x, u, p):
+                    return c * u[key](t, x, p.extract_params(key))
+        else:
+            class E(base):
+                def equation(self, z, u, p):
+                    return c * u[key](z, p.extract_params(key))
+        return E()
+    dl = {"e1": mkE("a", 1.0), "e2": mkE("b", 2.0)}
+    if kind == "ode":
+        L = jinns.loss.SystemLossODE(u_dict=us, dynamic_loss_dict=dl, params_dict=PD, loss_weights=jinns.loss.LossWeightsODEDict(dyn_loss=1.0),
+                                     initial_condition_dict={k: (0.0, jnp.array([0.0])) for k in us})
+    else:
+        L = jinns.loss.SystemLossPDE(u_dict=us, dynamic_loss_dict=dl, params_dict=PD, loss_weights=jinns.loss.LossWeightsPDEDict(dyn_loss=1.0))
+    return L, PD
+
+
+def problem(kind, dim=2, vec=False, system=False):
+    if system:
+        return system_problem(kind, dim)
+    return _problem(kind, dim, vec)
+
+
+def _problem(kind, dim=2, vec=False):
+    """vec: a residual with two components of differing sign and size (ODE and stationary kinds only:
+    the non-stationary refinement step reshapes the residuals to one number per space-time pair)"""
     jax, jnp, np, eqx, jinns = jx()
     from jinns.parameters import Params
     if kind == "ode":
         class Eq(jinns.loss.ODE):
             def equation(self, t, u, params):
+                if vec:
+                    return jnp.concatenate([u(t, params) - 2.0, 2.0 * u(t, params) - 5.0 * t])
                 return u(t, params) - 2.0
         u = mk([{(0,): 1, (1,): 3, (2,): -4}], "ODE")          # residual 1 + 3t - 4t^2 - 2
         P = Params(nn_params=u.init_params(), eq_params={})
@@ -18,6 +64,8 @@ def problem(kind, dim=2):
     if kind == "statio":
         class Eq(jinns.loss.PDEStatio):
             def equation(self, x, u, params):
+                if vec:
+                    return jnp.concatenate([u(x, params), x[0:1] - 2.0 * u(x, params)])
                 return u(x, params)
         poly = {(1, 0): 3, (0, 1): -2, (1, 1): 4} if dim == 2 else {(1,): 3, (2,): -4}
         u = mk([poly], "statio_PDE")
